@@ -1,3 +1,62 @@
+import GarbleVerif.Proofs.Encoding
 import GarbleVerif.Model.Literal
+/-!
+# C09 — literal encoding round-trips and matches the documented bit layout
+
+`Val.encode` / `Ty.decode` / `Val.hasType` are the *specification* of the layout (big-endian
+two's complement integers; array elements, tuple fields and struct fields concatenated; enums
+as a tag followed by the zero-padded payload). For **every** type (any nesting) and every
+well-typed value:
+-/
 namespace GV
+
+/-- encoding yields exactly `size(T)` bits -/
+theorem C09_size (v : Val) (t : Ty) (h : v.hasType t = true) : (v.encode t).length = t.size :=
+  Val.encode_length v t h
+
+/-- decoding those bits yields the value -/
+theorem C09_roundtrip (v : Val) (t : Ty) (h : v.hasType t = true) : t.decode (v.encode t) = some v :=
+  Val.decode_encode v t h
+
+/-- the layout, clause by clause (these hold by definition; stated so that a change of the
+specification shows up here) -/
+theorem C09_layout_int (i : Int) (k : IntTy) : (Val.int i).encode (.int k) = intToBits i k.bits := rfl
+theorem C09_layout_tuple (v : Val) (r : ValList) (t : Ty) (ts : TyList) :
+    (Val.tuple (.cons v r)).encode (.tuple (.cons t ts)) = v.encode t ++ (Val.tuple r).encode (.tuple ts) := rfl
+theorem C09_layout_array (v : Val) (r : ValList) (t : Ty) (n m : Nat) :
+    (Val.array (.cons v r)).encode (.array t n) = v.encode t ++ (Val.array r).encode (.array t m) := rfl
+theorem C09_layout_struct (f : String) (v : Val) (r : FieldVals) (t : Ty) (ts : Fields) (s : String) :
+    (Val.struct s (.cons f v r)).encode (.struct s (.cons f t ts)) =
+      v.encode t ++ (Val.struct s r).encode (.struct s ts) := rfl
+
+/-- integers are big-endian two's complement: the numeric value of the bits is the value modulo `2^w` -/
+theorem C09_int_bits (i : Int) (w : Nat) : (bitsToNat (intToBits i w) : Int) = i % (2 : Int) ^ w := by
+  simp only [intToBits, bitsToNat_natToBits]
+  have hpos : (0 : Int) ≤ i % (2 : Int) ^ w := Int.emod_nonneg _ (Int.ne_of_gt (Int.pow_pos (by decide)))
+  have hlt : i % (2 : Int) ^ w < (2 : Int) ^ w := Int.emod_lt_of_pos _ (Int.pow_pos (by decide))
+  have e : ((i % (2 : Int) ^ w).toNat : Int) = i % (2 : Int) ^ w := Int.toNat_of_nonneg hpos
+  have hlt' : (i % (2 : Int) ^ w).toNat < 2 ^ w := by
+    have : ((i % (2 : Int) ^ w).toNat : Int) < ((2 ^ w : Nat) : Int) := by rw [e]; push_cast; exact hlt
+    exact_mod_cast this
+  rw [Nat.mod_eq_of_lt hlt', e]
+
+/-! ### statements about the transliterated `literal.rs` not yet proved (checked by correspondence) -/
+
+/-- a literal the API accepts denotes a well-typed value and encodes to that value's bits -/
+def C09_accept_safe_Statement : Prop :=
+  ∀ (d : Defs) (l : Lit) (t : Ty), l.isOfType t = true →
+    ∃ v, l.denote t = some v ∧ v.hasType t = true ∧ l.asBits d = v.encode t
+
+/-! ### non-vacuity -/
+
+def demoTy : Ty :=
+  .tuple (.cons (.int .i8) (.cons (.enum "E" (.cons "A" true .nil (.cons "B" false (.cons (.int .u16) .nil) .nil))) .nil))
+def demoVal : Val := .tuple (.cons (.int (-3)) (.cons (.enum "E" "B" false (.cons (.int 515) .nil)) .nil))
+
+example : demoVal.hasType demoTy = true := by decide +kernel
+example : demoVal.encode demoTy =
+    [true, true, true, true, true, true, false, true,  true,
+     false, false, false, false, false, false, true, false, false, false, false, false, false, false, true, true] := by
+  decide +kernel
+
 end GV
